@@ -112,6 +112,7 @@ func sysNew(f []string) vlib.Res {
 		"alias.zone.test. 300 IN CNAME www.zone.test.",
 		"xalias.zone.test. 300 IN CNAME www.other.test.",
 		"ialias.zone.test. 300 IN CNAME www.plain.test.",
+		"lalias.zone.test. 900 IN CNAME short.other.test.", // long-lived alias onto a short-lived record of another zone
 		"*.w.zone.test. 120 IN TXT \"wild\"",
 		"real.w.zone.test. 120 IN TXT \"real\"",
 		"txt.zone.test. 300 IN TXT \"hello\"",
@@ -163,7 +164,8 @@ func sysNew(f []string) vlib.Res {
 	}
 	o := w.AddZone("other.test.", l3.ZoneOpts{Signed: true, PublishDS: true, Alg: dns.ED25519})
 	s.srv["other"] = o.Servers[0]
-	o.Add("www.other.test. 300 IN A 192.0.2.30", "victim.other.test. 300 IN A 192.0.2.31")
+	o.Add("www.other.test. 300 IN A 192.0.2.30", "victim.other.test. 300 IN A 192.0.2.31",
+		"short.other.test. 20 IN A 192.0.2.32")
 	ev := w.AddZone("evilother.test.", l3.ZoneOpts{}) // a name that merely ends in the characters of other.test.
 	ev.Add("www.evilother.test. 300 IN A 6.6.6.6", "victim.evilother.test. 300 IN A 6.6.6.6")
 	pl := w.AddZone("plain.test.", l3.ZoneOpts{})
